@@ -386,6 +386,70 @@ def chain(ctx, n, tree_idx, tail, offset=None):
     ctx.require(result is got[-1][0] and isinstance(result, elems[0][1]), "the head element is returned")
 
 
+def reuse(ctx, n, j):
+    """an unfinished chain / a template is a value: continuing it twice gives two independent results"""
+    offset = ctx.choice("offset", len(HEADS))
+    elems = []
+    for i in range(n):
+        name = (HEADS if i == 0 else DECORATORS)[(i + offset) % len(HEADS)]
+        elems.append(_make_template(ctx, name, i, "e%d" % i))
+    prefix = elems[0][0]
+    for t, *_ in elems[1:j]:
+        prefix = prefix >> t
+    order = ctx.choice("order", 2)  # which continuation comes first
+
+    def long_way():
+        r = prefix
+        for t, *_ in elems[j:]:
+            r = r >> t
+        return r >> P0()
+
+    def short_way():
+        return prefix >> P0()
+
+    runs = [("long", long_way, n), ("short", short_way, j)]
+    if order:
+        runs.reverse()
+    runs.append(runs[0])  # and the first one again
+    ctx.reach()
+    for tag, fn, length in runs:
+        del LOG[:]
+        result = fn()
+        got = [x for x in LOG if not isinstance(x[0], P0)]
+        ctx.observe(tag, [type(x[0]).__name__ for x in got])
+        ctx.require([type(x[0]) for x in got] == [e[1] for e in reversed(elems[:length])],
+                    "continuing a stored template/unfinished chain builds exactly the elements written (%s)" % tag)
+        if len(got) != length:
+            continue
+        for (obj, target, args, kwargs), (t, cls, pos, kw) in zip(got, reversed(elems[:length])):
+            ctx.require(all(same(a, b) for a, b in zip(args, pos)), "positional arguments arrive in the order given")
+        ctx.require(result is got[-1][0], "the head element is returned")
+
+
+def curry_reuse(ctx):
+    """currying never changes the template it was applied to"""
+    a, b1, b2 = ctx.num("a", "int"), ctx.num("b1", "int"), ctx.num("b2", "int")
+    base = S1.s(a)
+    t1 = base(b=b1)
+    t2 = base(b=b2)
+    pool = RecPool()
+    del LOG[:]
+    x1, x2, x0 = t1 >> pool, t2 >> pool, base >> pool
+    ctx.reach()
+    got = list(LOG)
+    ctx.require(len(got) == 3, "three independent constructions")
+    if len(got) == 3:
+        ctx.require(same(got[0][2][0], a) and same(got[0][2][1], b1), "first curry keeps its own keyword")
+        ctx.require(same(got[1][2][0], a) and same(got[1][2][1], b2), "second curry keeps its own keyword")
+        ctx.require(same(got[2][2][0], a) and got[2][2][1] == 0 and not (symx_is(got[2][2][1])),
+                    "the base template is unchanged by currying")
+
+
+def symx_is(x):
+    from ..symx import is_sym
+    return is_sym(x)
+
+
 def stepwise_template(ctx):
     """UnboundStepwise.s is a leaf-marked template of a controller: binding needs a pool"""
     def base(pool, interval):
@@ -403,7 +467,10 @@ def stepwise_template(ctx):
 def tasks(tier, seed):
     out = [Task(MOD, "eager", dict(family="harness"), model="Z", weight=50, shards=8),
            Task(MOD, "eager", dict(family="shipped"), model="Z", weight=30, shards=4),
-           Task(MOD, "stepwise_template", model="Z")]
+           Task(MOD, "stepwise_template", model="Z"), Task(MOD, "curry_reuse", model="Z")]
+    for n in range(2, (4 if tier == "quick" else 5)):
+        for j in range(1, n):
+            out.append(Task(MOD, "reuse", dict(n=n, j=j), model="Z", weight=4 ** n, witness_every=1 if n < 4 else 7))
     nmax = 3 if tier == "quick" else 4
     for n in range(1, nmax + 1):
         ntrees = len(_trees(0, n + 1))
